@@ -45,8 +45,18 @@ static void lex_step(t_char c) {
   else if (g_st == ST_STR_BS) { g_st = ST_STR; }
   else { if (c == '|') g_st = ST_INITIAL; }
 }
-#define INV_LEX (inComment == (g_st == ST_COMMENT) && inQuotedSymbol == (g_st == ST_PSYM) && inString == (g_st == ST_STR || g_st == ST_STR_BS) \
-                 && inStringEscape == (g_st == ST_STR_BS) && g_st <= ST_PSYM && par == g_depth)
+#define INV_LEX_BASE (inComment == (g_st == ST_COMMENT) && inQuotedSymbol == (g_st == ST_PSYM) && inString == (g_st == ST_STR || g_st == ST_STR_BS) \
+                      && g_st <= ST_PSYM && par == g_depth)
+#define INV_LEX (INV_LEX_BASE && inStringEscape == (g_st == ST_STR_BS))
+/* the read loop can only speak about the escape flag if it is function-level state; if a change narrows its scope the
+   scanning loop's own invariant still demands it on entry, so the loss of the state is a failed obligation, not a compile error */
+#ifdef OSMT_FNLOCAL_Interpret__interpPipe_inStringEscape
+#define INV_LEX_OUTER INV_LEX
+#define ESC_FRAME inStringEscape,
+#else
+#define INV_LEX_OUTER INV_LEX_BASE
+#define ESC_FRAME
+#endif
 #define INV_BUF (buf__live && buf__sz == (t_long)buf_sz && buf_sz >= 16 && rd_head >= 0 && rd_head < buf_sz && buf__nul == (t_long)rd_head)
 #define INV_PAR (par <= i && par >= -i)
 
@@ -70,14 +80,14 @@ struct ASTNode *Smt2newContext__getRoot(struct Smt2newContext *self) { return (s
 void Interpret__execute(void *self, struct ASTNode *r) { g_opaque_Interpret_f_exit = nondet_bool(); g_cmds = g_cmds < 1000 ? g_cmds + 1 : g_cmds; }
 
 /* ---- loop contracts -------------------------------------------------------------------------------------------- */
-#define LOOP_FRAME i, par, rd_head, inComment, inString, inStringEscape, inQuotedSymbol, done, buf__nul, g_st, g_depth, g_ptr_off, g_ptr_sz, g_ptr_live, g_opaque_Interpret_f_exit, g_cmds
+#define LOOP_FRAME_NOESC i, par, rd_head, inComment, inString, inQuotedSymbol, done, buf__nul, g_st, g_depth, g_ptr_off, g_ptr_sz, g_ptr_live, g_opaque_Interpret_f_exit, g_cmds
 /* 1: while (!done) -- one read() per iteration; termination depends on the input (EOF) and is not claimed */
 #define OSMT_LOOP_Interpret__interpPipe_1 \
-  __CPROVER_assigns(LOOP_FRAME, buf_sz, buf__sz, h_errno) \
-  __CPROVER_loop_invariant(INV_BUF && INV_LEX && i >= 0 && i <= rd_head && INV_PAR)
+  __CPROVER_assigns(ESC_FRAME LOOP_FRAME_NOESC, buf_sz, buf__sz, h_errno) \
+  __CPROVER_loop_invariant(INV_BUF && INV_LEX_OUTER && i >= 0 && i <= rd_head && INV_PAR)
 /* 2: the scanning loop */
 #define OSMT_LOOP_Interpret__interpPipe_2 \
-  __CPROVER_assigns(LOOP_FRAME) \
+  __CPROVER_assigns(inStringEscape, LOOP_FRAME_NOESC) \
   __CPROVER_loop_invariant(INV_BUF && INV_LEX && i >= 0 && i <= rd_head && INV_PAR) \
   __CPROVER_decreases(rd_head - i)
 #define OSMT_LOOPTAIL_Interpret__interpPipe_2 lex_step(c);
